@@ -59,7 +59,9 @@ func run(firstSeq uint16) {
 	tcp := gortsplib.ProtocolTCP
 	host := s.NetListener().Addr().String()
 	c := &gortsplib.Client{Scheme: "rtsps", Host: host, Protocol: &tcp, TLSConfig: &tls.Config{InsecureSkipVerify: true},
-		DialTLSContext: func(ctx context.Context, n, a string) (net.Conn, error) { return (&net.Dialer{}).DialContext(ctx, n, a) }}
+		DialTLSContext: func(ctx context.Context, n, a string) (net.Conn, error) {
+			return (&net.Dialer{}).DialContext(ctx, n, a)
+		}}
 	var got, bad atomic.Int64
 	c.OnDecodeError = func(err error) {
 		if bad.Add(1) == 1 {
